@@ -10,6 +10,7 @@
  *   getop <hex> <pos>                       lysc_iff_getop -> ok <op>
  *   setop <hex> <op> <pos>                  iff_setop      -> ok <hex>
  *   xmldump <attr> <hex | N> / jsonprint <hex | N>       lyxml_dump_text / json_print_string into a memory stream -> ok <ret> <hex>
+ *   uhex <hex> <value0>                     slice of lyjson_string: the 4 hex digits of \\uXXXX at in[0..] -> ok <ret> <value>
  *   fixedsize <n>                           lyht_get_fixed_size -> ok <n>
  *   grow <used> <size> <resize> / shrink <used> <size>   slices of the insert / remove load-factor tests (fn_slices_FnHt.h)
  *   lybmask <hash> <cid> / extlen <cid> <len>            slices of lyb_generate_hash (fn_slices_FnLyb.h)
@@ -26,6 +27,7 @@
 #include "proto.h"
 #include "fn_slices_FnHt.h"
 #include "fn_slices_FnLyb.h"
+#include "fn_slices_FnJson.h"
 
 static char *
 exact(const char *hex, size_t *n, int nul)
@@ -101,6 +103,11 @@ main(void)
             ret = x ? lyxml_dump_text(out, t, atoi(r.tok[3])) : json_print_string(out, t);
             vp_begin(id, "ok"); vp_field_u(ret); vp_field_hex(mem ? mem : "", mem ? strlen(mem) : 0); vp_end();
             ly_out_free(out, NULL, 0); free(mem); free(t);
+        } else if (!strcmp(op, "uhex") && r.ntok == 5) {
+            char *t = exact(r.tok[3], &n, 1);
+            uint32_t v = strtoul(r.tok[4], NULL, 10);
+            int rc = lyjson_string__u(t, 0, &v);
+            vp_begin(id, "ok"); vp_field_u(rc); vp_field_u(v); vp_end(); free(t);
         } else if (!strcmp(op, "fixedsize") && r.ntok == 4) {
             vp_begin(id, "ok"); vp_field_u(lyht_get_fixed_size(strtoul(r.tok[3], NULL, 10))); vp_end();
         } else if (!strcmp(op, "grow") && r.ntok == 6) {
